@@ -26,6 +26,8 @@ pub enum KeySet {
 	Btree,
 	/// 32-byte root keys for multitree columns.
 	Roots,
+	/// Identity-hashed keys built for controlled index growth (C09): see `grow_key`.
+	Grow { page: u16 },
 }
 
 #[derive(Clone, Debug, Serialize, Deserialize, PartialEq, Eq, Hash)]
@@ -229,6 +231,7 @@ pub fn key_bytes(set: KeySet, id: u16) -> Vec<u8> {
 			k
 		},
 		KeySet::Crafted { page } => crafted_key(page, id).to_vec(),
+		KeySet::Grow { page } => grow_key(page, id).to_vec(),
 		KeySet::Btree => {
 			if id == 0 {
 				return vec![]
@@ -281,6 +284,34 @@ pub fn crafted_key(page: u16, id: u16) -> [u8; 32] {
 	k[8..].copy_from_slice(&tail);
 	k[8] = id as u8;
 	k[9] = (id >> 8) as u8;
+	k
+}
+
+/// Identity-hashed 32-byte key for controlled index growth. ids come in blocks of 8; block b
+/// lives in the 19-bit sub-page (b % 8) of the 16-bit page `page`, so n keys put ~n/8 keys
+/// under every 19-bit prefix: growth 16 -> 17 -> 18 -> 19 bits happens for n > 64 / 128 / 256
+/// and terminates for n <= 480. Inside a block the ids with id % 8 >= 5 share ALL of the first
+/// 8 bytes (everything the index can see) with id % 8 == 4: an index-identical group of four
+/// keys that differ only in the key tail stored in the value table. ids >= 20000 are
+/// background keys on other pages.
+pub fn grow_key(page: u16, id: u16) -> [u8; 32] {
+	let mut k = [0u8; 32];
+	let mut tail = [0u8; 24];
+	fill_random(&mut tail, 0x9000 + id as u64);
+	k[8..].copy_from_slice(&tail);
+	k[8] = id as u8;
+	k[9] = (id >> 8) as u8;
+	if id >= 20000 {
+		let prefix = splitmix(0xbbbb + id as u64) | 1 << 63;
+		let prefix = if (prefix >> 48) as u16 == page { prefix ^ (1 << 62) } else { prefix };
+		k[0..8].copy_from_slice(&prefix.to_be_bytes());
+		return k
+	}
+	let leader = if id % 8 >= 5 { id - (id % 8) + 4 } else { id };
+	let sub = ((leader / 8) % 8) as u64;
+	let g = splitmix(0x7700 + leader as u64) & ((1u64 << 35) - 1);
+	let prefix: u64 = ((page as u64) << 48) | (sub << 45) | (g << 10) | 0x2aa;
+	k[0..8].copy_from_slice(&prefix.to_be_bytes());
 	k
 }
 
